@@ -7,6 +7,7 @@ from . import tlc
 from .build import MachineryFailure, workdir
 
 CHARS = {97, 98, 60, 62, 44}
+SMALL = {97, 60, 62, 44}
 INVS = ["RecogniserIsParser", "ParserIsGrammar", "TreeIsGrammarTree", "Unambiguous", "PrintsBack"]
 
 
@@ -34,8 +35,9 @@ def viol(s, expected, observed, kind):
             "signature": "typename:%s" % kind}
 
 
-def exhaustive(ctx, maxlen):
-    cfg = tlc.render_cfg({"MaxLen": maxlen, "Chars": CHARS}, invariants=INVS + ["EmitS"])
+def exhaustive(ctx, maxlen, chars=None):
+    chars = chars or CHARS
+    cfg = tlc.render_cfg({"MaxLen": maxlen, "Chars": chars}, invariants=INVS + ["EmitS"])
     r = tlc.run("TypeName", cfg, workers=1, timeout=3000)
     if r.errors:
         raise MachineryFailure("TypeName: %s" % r.errors[0][:1500])
@@ -70,7 +72,7 @@ def exhaustive(ctx, maxlen):
                     if type(e).__name__ != "TypeNameError":
                         ctx.violations.append(viol(s, "TypeNameError", type(e).__name__, "wrong-exception"))
     ctx.traces += len(r.records)
-    ctx.stages.append({"stage": "exhaustive-strings", "max_length": maxlen, "alphabet": "a b < > ,",
+    ctx.stages.append({"stage": "exhaustive-strings", "max_length": maxlen, "alphabet": " ".join(map(chr, sorted(chars))) if all(isinstance(c, int) for c in chars) else sorted(map(str, chars)),
                        "strings": len(r.records), "accepted_by_grammar": acc, "exhaustive": True,
                        "spec_invariants": INVS})
     if r.records:
@@ -147,6 +149,7 @@ def judged(ctx, n, maxdepth):
 
 def run(ctx):
     exhaustive(ctx, 7 if ctx.quick() else 8)
+    exhaustive(ctx, 9 if ctx.quick() else 10, chars=SMALL)    # one name character only: two lengths further
     judged(ctx, 3000 if ctx.quick() else 40000, 12 if ctx.quick() else 30)
     ctx.exhaustive = False
     ctx.assumptions += ["nesting depth of generated names <= 30 (Python's recursion limit is environment, DESIGN "
